@@ -6,8 +6,12 @@ decoded by the REAL decoder (tools/ent_block.py, harness/zvh_dec.c `dec`).
 
 One op:
   `cframe <windowLog> <checksum 0|1> <blocks spec|-> <hex x|->`
-     -> `<hex of serializeFrame2 a blocks x> rt=ok`            when the decoder model (`Frame.decompressAll`, capacity x.size) gives x back
-        `<hex> rt=FAIL:DIFF` / `<hex> rt=FAIL:<error class>`     otherwise;   `bad-op` on a malformed line
+     -> `<hex of serializeFrame2 a blocks x> rt=ok fse=<n> spreadOK=<b> spreadEncEqDec=<b>`
+                                                               rt=ok when the decoder model (`Frame.decompressAll`, capacity x.size) gives x back,
+        `rt=FAIL:DIFF` / `rt=FAIL:<error class>`                 otherwise;   `bad-op` on a malformed line
+        fse = number of FSE-described tables (`f...` below) in the frame; spreadOK = `FSE.spreadOK (FSE.spreadEnc norm L) norm L` holds for
+        every one of them, spreadEncEqDec = `FSE.spreadEnc norm L == FSE.spread norm L` for every one of them (the side conditions of the
+        round-trip theorems; both `true` when fse=0)
   HArgs = ⟨windowLog, x.size, contentSizeFlag = true, 0, false, checksum != 0, false⟩ (as `args` of Driver/Serialize.lean with csf = 1).
 
 `<blocks spec>` = blocks separated by `;` (`-` = no block at all).  Separators, from the outside in: ` ` (op fields), `;` (blocks),
@@ -21,8 +25,12 @@ One op:
                    `LitChoice.huffman` to the model.  It falls back to raw literals exactly where ZSTD_compressLiterals would not keep a
                    Huffman output either: fewer than 2 distinct literals, a literal > 128 (the direct 4-bit tree description holds at
                    most 128 weights; the FSE-compressed description is not produced by the model), or no gain over the raw section.
-       tablemodes  three letters, for LL, OF, ML: `b` predefined table | `r` RLE table whose symbol is the code of the FIRST sequence of
-                   the block after `storeAll` under the running repeat-offset history (`(codesOf s).ll / .of / .ml`)
+       tablemodes  for LL, OF, ML, either three letters (`bbb`, `rbp`, ...) or three descriptors separated by `/` (`f6,4,3,-1,0,56/b/p`):
+                   `b` predefined table (set_basic) | `r` RLE table (set_rle) whose symbol is the code of the FIRST sequence of
+                   the block after `storeAll` under the running repeat-offset history (`(codesOf s).ll / .of / .ml`) |
+                   `f<tableLog>,<c0>,<c1>,...` a table described in the block (set_compressed): the normalised counts (-1 allowed) of the
+                   symbols 0 .. number of counts - 1, handed to the model as `SeqTableChoice.fse norm tableLog` |
+                   `p` the table of the previous block of the frame that had sequences (set_repeat, `SeqTableChoice.repeat`)
        sequences   `ll:ml:rawOffset` separated by `,`; ml = the real match length (>= 3, mlBase = ml - 3); the list may be empty
                    (`cr:bbb::<n>`)
        tail        number of literal bytes behind the last match
@@ -111,18 +119,40 @@ def gatherLits (x : ByteArray) (pos : Nat) (raws : List RawSeq) (tail : Nat) : B
     p := p + q.litLength + q.mlBase + 3
   return lits ++ x.extract p (p + tail)
 
-def tableChoice (m : Char) (sym : Nat) : Option SeqTableChoice :=
-  if m == 'b' then some .predefined else if m == 'r' then some (.rle sym) else none
+/-- one table descriptor: `b` | `r` | `p` | `f<tableLog>,<c0>,<c1>,...` -/
+def tableChoice (d : String) (sym : Nat) : Option SeqTableChoice :=
+  if d == "b" then some .predefined
+  else if d == "r" then some (.rle sym)
+  else if d == "p" then some .repeat
+  else if d.startsWith "f" then
+    match (d.drop 1).toString.splitOn "," with
+    | l :: cs =>
+      match l.toNat?, cs.mapM String.toInt? with
+      | some log, some norm => if norm.isEmpty then none else some (.fse norm.toArray log)
+      | _, _ => none
+    | [] => none
+  else none
+
+/-- the table-modes field: three letters, or three descriptors separated by `/` -/
+def splitModes (s : String) : Option (String × String × String) :=
+  if s.contains '/' then
+    match s.splitOn "/" with
+    | [a, b, c] => some (a, b, c)
+    | _ => none
+  else
+    match s.toList with
+    | [a, b, c] => some (String.singleton a, String.singleton b, String.singleton c)
+    | _ => none
 
 def parseCompressed (x : ByteArray) (pos : Nat) (rep : Rep.R) (tok : String) : Option BlockChoice2 :=
   let fs := tok.splitOn ":"
   if fs.length < 4 then none else
   let head := fs.head!
-  let modes := fs[1]!.toList
+  let modes := splitModes fs[1]!
   let tail? := fs.getLast!.toNat?
   let seqStr := ":".intercalate ((fs.drop 2).dropLast)
   match parseSeqs seqStr, tail?, modes with
-  | some raws, some tail, [mLL, mOF, mML] =>
+  | some raws, some tail, some (mLL, mOF, mML) =>
     let lits := gatherLits x pos raws tail
     let first := ((storeAll rep raws).1.head?).map SeqEnc.codesOf |>.getD ⟨0, 0, 0⟩
     let lit? : Option LitChoice :=
@@ -154,6 +184,23 @@ def parseBlocks (x : ByteArray) (toks : List String) : Option (List BlockChoice2
           else none
   go toks 0 repStart []
 
+/-- the FSE-described tables of a frame, as (normalised counts, table log) -/
+def fseTables (bs : List BlockChoice2) : List (Array Int × Nat) :=
+  bs.flatMap fun b =>
+    match b with
+    | .compressed _ t _ _ => [t.ll, t.of, t.ml].filterMap fun c =>
+        match c with
+        | .fse norm log => some (norm, log)
+        | _ => none
+    | _ => []
+
+/-- the spreading side conditions of the round-trip theorems on every FSE-described table -/
+def spreadReport (bs : List BlockChoice2) : String :=
+  let ts := fseTables bs
+  let ok := ts.all fun (norm, log) => FSE.spreadOK (FSE.spreadEnc norm log) norm log
+  let eq := ts.all fun (norm, log) => FSE.spreadEnc norm log == FSE.spread norm log
+  s!" fse={ts.length} spreadOK={ok} spreadEncEqDec={eq}"
+
 def report (frame x : ByteArray) : String :=
   let hex := if frame.size = 0 then "-" else frame.toHex
   match Frame.decompressAll frame {} x.size {} with
@@ -168,7 +215,7 @@ def step (_ : Unit) (ws : List String) : Unit × String :=
     match wl.toNat?, ck.toNat?, parseBlocks x toks with
     | some wl, some ck, some bs =>
       let a : HeaderW.HArgs := ⟨wl, x.size, true, 0, false, ck != 0, false⟩
-      ((), report (serializeFrame2 a bs x) x)
+      ((), report (serializeFrame2 a bs x) x ++ spreadReport bs)
     | _, _, _ => ((), "bad-op")
   | _ => ((), "bad-op")
 
